@@ -184,6 +184,21 @@ CLAIMED["C03"] = {
     "design_ref": "DESIGN.md §5 C03",
 }
 
+CLAIMED["C17"] = {
+    "text": "Decides structural necessary conditions of the report, not its rendered text: (b) Function::run pushes the function's frame "
+            "(labelled with get_qualified_name()) before any instruction handler runs, pops it on every Ok return, and neither a block after a failure "
+            "edge (`?` Break edge or Err construction) nor an error-path closure (map_err/or_else/with_context..) nor any bytecode function they call "
+            "pops a frame, so every active function is still on the stack when the error reaches Program::execute; the <native code> frame of a "
+            "built-in is pushed before it runs and popped only across the Continue edge of the `?` on its result; execute() attaches "
+            "stack.to_string() to the error lazily (with_context on the entrypoint's result), flushes stdout before each banner and returns Err "
+            "after it; (c) Parser::assertion builds '{file}:{line}:{col}' in that order from get_source_file_name() and line_col() of the start of "
+            "the assert statement's own span, stores it as Assertion.span, Assertion::compile passes exactly that field as the instruction "
+            "argument, and the assert handler returns Ok only on the true edge of equals(.., true) and formats args[0] into its error. Clause (a) "
+            "(no data-dependent panic on an interpreter path) is decided only to the extent listed in the evidence under C17.panic, see DESIGN.md.",
+    "technique": "static analysis: dominator / no-call-after-failure / must-pass-through rules on the MIR control-flow graphs of the interpreter loop, with field-sensitive origin slicing for the assert position",
+    "design_ref": "DESIGN.md §5 C17",
+}
+
 NOT_APPLICABLE = {
     "C01": "observable is program output; mechanism is relative jump offsets computed from Vec::len() arithmetic of recursively compiled blocks - deciding it needs symbolic execution of the generators (a different family); see DESIGN.md §5 C01",
     "C09": "a property of the compiler's *output* for all programs (jump targets, frame balance, operand-stack shape): needs symbolic block lengths or a verifier over emitted bytecode (translation validation), not an analysis of /repo's source; DESIGN.md §5 C09",
